@@ -91,7 +91,8 @@ def specStep (own : List Nat) (dom : Nat) (g : Glob) (s : SpecSt) (f : List Nat)
     if byteAt f 32 = 0x0E ∧ s.iconCache.isNone then
       match g.icon with
       | some (b :: bs) => { s with iconCache := some (b :: bs) }
-      | _ => s
+      | some [] => if g.emptyBlock then { s with iconCache := some [] } else s
+      | none => s
     else s
   else if isProbe f then
     if fRealDst f != own then s else
